@@ -42,7 +42,7 @@ func c09Add(out *emit.Out, scenario string, in c09Input) {
 		out.Add(emit.Case{Scenario: "tt/" + in.TT.Target + "-" + in.TT.Phase + "/" + scenario, Input: in, Trivial: len(in.TT.Evs) < 2, Direct: direct,
 			Observed: map[string]interface{}{"obs": obs, "max": m, "err": o.Res.Err, "panic": o.Panic}, Coq: c09TraceTCoq(*in.TT, obs)})
 	case "td":
-		obs, o, m, base := c09RunTraceD(*in.TD)
+		obs, o, m := c09RunTraceD(*in.TD)
 		direct := ""
 		if o.Panic != "" {
 			direct = "panic"
@@ -50,13 +50,13 @@ func c09Add(out *emit.Out, scenario string, in c09Input) {
 			direct = "hang"
 		}
 		out.Add(emit.Case{Scenario: "td/" + in.TD.Target + "-" + in.TD.Phase + "/" + scenario, Input: in, Trivial: len(in.TD.Evs) < 2, Direct: direct,
-			Observed: map[string]interface{}{"obs": obs, "max": m, "err": o.Res.Err, "panic": o.Panic}, Coq: c09TraceDCoq(*in.TD, obs, m.Depth, base)})
+			Observed: map[string]interface{}{"obs": obs, "max": m, "err": o.Res.Err, "panic": o.Panic}, Coq: c09TraceDCoq(*in.TD, obs, m.Depth, m.Frames)})
 	case "ep":
 		o := c09RunEp(*in.Ep)
 		m := o.Max
 		var coq string
 		if in.Ep.Stack == "dtlcp" {
-			coq = fmt.Sprintf("EpD %s %s %d %d %d %d %d %d %d", emit.Bool(o.Panic != ""), emit.Bool(o.Hung), m.HandLen, m.RawLen, m.Pending, m.PendingB, m.PostHand, m.Retry, m.Depth)
+			coq = fmt.Sprintf("EpD %s %s %d %d %d %d %d %d %d %d", emit.Bool(o.Panic != ""), emit.Bool(o.Hung), m.HandLen, m.RawLen, m.Pending, m.PendingB, m.PostHand, m.Retry, m.Depth, m.Frames)
 		} else {
 			coq = fmt.Sprintf("EpT %s %s %d %d %d %d %d %d", emit.Bool(o.Panic != ""), emit.Bool(o.Hung), m.HandLen, m.RawLen, m.RawCap, m.PostHand, m.Retry, m.Depth)
 		}
@@ -432,15 +432,21 @@ func c09GenTraceD(out *emit.Out, r *rand.Rand, thorough bool) {
 			}
 			return l
 		}())
-		// K13: datagrams from other addresses
+		// K13 (fixed 593205a): datagrams from other addresses
 		add("k10-foreign-3", target, "p0", []c09DEv{{K: "foreign"}, {K: "foreign"}, {K: "foreign"}, one(warn), {K: "foreign"}})
 		add("k10-foreign-40", target, "p0", repD(c09DEv{K: "foreign"}, 40))
-		// K14: handBuf grows inside one readRecordOrCCS call
+		// K14 (fixed 6b259b8): handBuf grew inside one readRecordOrCCS call
 		k11 := one(hs(zeros(16000)), c09DRec{Typ: 22, Other: true})
 		add("k11-chain-2", target, "p0", []c09DEv{one(hs(append(lit(hdrD(0xEE, 60000, 0, 0, 60000)...), zeros(15000)...)), c09DRec{Typ: 22, Other: true}), k11})
 		add("k11-chain-8", target, "p0", append([]c09DEv{one(hs(append(lit(hdrD(0xEE, 60000, 0, 0, 60000)...), zeros(15000)...)), c09DRec{Typ: 22, Other: true})}, repD(k11, 7)...))
+		// K15: the same with a warning alert at the end of every datagram: retryReadRecord re-enters
+		// readRecordOrCCS, whose new frame takes the grown handBuf as its handLenAtEntry
+		k15 := one(hs(zeros(16000)), c09DRec{Typ: 22, Other: true}, warn)
+		add("k15-chain-8", target, "p0", append([]c09DEv{one(hs(append(lit(hdrD(0xEE, 60000, 0, 0, 60000)...), zeros(15000)...)), c09DRec{Typ: 22, Other: true}, warn)}, repD(k15, 7)...))
+		add("k15-retry-3", target, "p0", repD(one(hs(zeros(1)), c09DRec{Typ: 22, Other: true}, warn), 3))
+		add("k15-retry-40", target, "p0", repD(one(hs(zeros(1)), c09DRec{Typ: 22, Other: true}, warn), 40))
 	}
-	// K12: reassembly buffers across readHandshake calls (server: every cookie-less ClientHello is answered and another one read)
+	// K12 (fixed 1e7de38): reassembly buffers across readHandshake calls (server: every cookie-less ClientHello is answered and another one read)
 	k9 := func(rounds, per int) []c09DEv {
 		var l []c09DEv
 		seq := 100
@@ -474,6 +480,9 @@ func c09GenTraceD(out *emit.Out, r *rand.Rand, thorough bool) {
 		add("replayed-app", target, "p4", []c09DEv{one(c09DRec{Typ: 23, P: zeros(5)}), one(c09DRec{Typ: 23, Replay: 1, P: zeros(5)}), one(c09DRec{Typ: 23, P: zeros(6)})})
 		add("bad-mac", target, "p4", []c09DEv{one(c09DRec{Typ: 23, P: zeros(5)}), one(c09DRec{Typ: 23, Bad: true})})
 		add("k10-foreign-5", target, "p4", append(repD(c09DEv{K: "foreign"}, 5), one(c09DRec{Typ: 23, P: zeros(5)})))
+		// K15 after completion: a handshake record (dropped, but it resets retryCount) and a warning alert per datagram
+		add("k15-retry-40", target, "p4", repD(one(hs(zeros(1)), warn), 40))
+		add("warnings-after-hs-record", target, "p4", append(repD(one(hs(zeros(1)), warn), 2), one(c09DRec{Typ: 23, P: zeros(5)})))
 	}
 	// random traces before the handshake
 	nr := 10
@@ -709,6 +718,7 @@ func c09GenEp(out *emit.Out, r *rand.Rand, thorough bool) {
 		add("k10-foreign-address-300", e)
 		add("packed-empty-records", with(base, append(pre, c09Step{Op: "rec", Typ: 22, Data: hx(hdrD(0xEE, 65536, 0, 0, 65536)), N: 1}, c09Step{Op: "rec", Typ: 21, Data: "015a", N: 16, Pack: 16})))
 		add("k11-chained-handshake-records", with(base, append(pre, c09Step{Op: "chain", Fill: 16000, N: 30, Batch: 10})))
+		add("k15-alert-chained-handshake-records", with(base, append(pre, c09Step{Op: "chain", Fill: 16000, N: 30, Batch: 10, Typ: 21})))
 	}
 	// server: reassembly buffers across the cookie exchange (K12)
 	base := c09Ep{Stack: "dtlcp", Target: "server", Suite: 0xe013, Ident: "sm2"}
